@@ -31,7 +31,9 @@ def to_interrupts(rng, prog, max_n=3):
             pm[a], pm[b] = pm[b], pm[a]
             n["pmap"] = [[p, pm[p]] for p in n["inputs"]]
         if rng.random() < 0.35:       # the human's answer is a FALSY value ("" / [] / 0 / False)
-            n["answers"] = [rng.choice(sorted(IR.FALSY)) for _ in range(n["ndata"])]
+            # ... or a value whose comparison has no truth value (array-like), or (single output) a dict
+            pool = sorted(IR.FALSY) + ["~arr"] + (["~dict"] if n["ndata"] == 1 else [])
+            n["answers"] = [rng.choice(pool) for _ in range(n["ndata"])]
         if rng.random() < 0.35 and len(n["outputs"]) == n["ndata"]:
             # the interrupt also emits an ordering signal that a separate node waits for
             sig = f"sig_{n['name']}"
@@ -108,6 +110,11 @@ def nested_cases(rng, n):
             top = IR.prog("top", [IR.func("S", ["x"], ["s"]), IR.graph_node(inner, inputs=["x"], outputs=["p", "answer", "q"]), IR.func("T", ["q", "s"], ["t"])])
             expect = "inner/ask"
         out.append((top, [["x", "in.x"]], expect))
+    # a multi-output interrupt inside a graph node whose NAME contains the first output's name
+    inner = IR.prog("answers", [IR.func("P", ["x"], ["p"]), IR.interrupt("ask", ["p"], ["answer", "score"], pause_at=[1]),
+                                 IR.func("Q", ["answer", "score"], ["q"])], max_iter=1000)
+    top = IR.prog("top", [IR.func("S", ["x"], ["s"]), IR.graph_node(inner, name="answers", inputs=["x"], outputs=["p", "answer", "score", "q"]), IR.func("T", ["q", "s"], ["t"])])
+    out.append((top, [["x", "in.x"]], "answers/ask"))
     return out
 
 
@@ -125,6 +132,15 @@ def run(tier, seed):
             pre = [[o, IR.answer_text(byname[i], jx)] for jx, o in enumerate(byname[i]["outputs"][: byname[i]["ndata"]])]
         chains.append({"prog": prog, "base": base, "provided": base + pre, "done": False, "pauses": [], "stage": 0, "ints": ints})
         ctx.distinct(IR.struct_hash([prog, base, pre]))
+    # two chained interrupts behind a producer; the first answer is an array-like value (its comparison has no truth
+    # value) / a dict / a falsy value: once both answers are supplied the run must complete
+    for ans in ("~arr", "~dict", "0", ""):
+        cprog = IR.prog("top", [IR.func("P", ["x"], ["p"]),
+                                IR.interrupt("I1", ["p"], ["a1"], pause_at=[1], answers=[ans]),
+                                IR.interrupt("I2", ["a1"], ["a2"], pause_at=[1]),
+                                IR.func("Q", ["a2", "p"], ["q"])])
+        chains.append({"prog": cprog, "base": [["x", "in.x"]], "provided": [["x", "in.x"]], "done": False, "pauses": [], "stage": 0, "ints": ["I1", "I2"]})
+        ctx.distinct(IR.struct_hash([cprog, "chained", ans]))
     for script in ([["END"]], [["ask_user"], ["END"]]):
         prog = hitl_loop(script)
         chains.append({"prog": prog, "base": [], "provided": [], "done": False, "pauses": [], "stage": 0, "ints": ["ask_user"], "cyclic": True})
@@ -243,6 +259,12 @@ def run(tier, seed):
         want_key = ".".join(expect.split("/")[:-1]) + ".answer"
         if o["pause"]["response_key"] != want_key or o["pause"]["value"] != m["pause"]["value"]:
             ctx.violation("nested-pause-info", wit, f"response_key {o['pause']['response_key']} (expected {want_key}), value {o['pause']['value']} (expected {m['pause']['value']})")
+            continue
+        prefix = ".".join(expect.split("/")[:-1]) + "."
+        inode = [n for pth, n in IR.all_nodes(prog) if pth == expect][0]
+        want_keys = {o2: prefix + o2 for o2 in inode["outputs"][: inode["ndata"]]}
+        if o["pause"]["response_keys"] != want_keys:
+            ctx.violation("nested-response-keys", wit, f"response_keys {o['pause']['response_keys']} expected {want_keys}")
             continue
         ran = {c["node"] for c in o["calls"]}
         if ran & {"Q", "M", "T"}:
